@@ -517,6 +517,61 @@ fn main() {
     generated(&rep, rep.tier.pick(10_000, 400_000), &pools);
     budgets(&rep, rep.tier.pick(1_000, 30_000));
     optimize_path(&rep);
+    // a second run on the state a first run left behind: the counter reported after it is the number of objective
+    // calls made during it (every run starts counting at zero)
+    {
+        let mut rng = mv::SplitMix64::new(rep.seed).fork(0xC06_7);
+        for k in 0..rep.tier.pick(300usize, 10_000usize) {
+            let o = mv::warm::warm_restart(&mut rng, k);
+            rep.case();
+            rep.nontrivial(hash_of(&("warm-restart", k)));
+            if o.failed.is_some() {
+                continue;
+            }
+            rep.count("second_runs_on_a_reused_state", 1);
+            if o.second_run_reported_evaluations as u64 != o.second_run_objective_calls {
+                rep.violation(
+                    "second-run-on-a-reused-state:reported-evaluations-differ-from-objective-calls",
+                    json!({"heuristic": o.variant, "seed": o.seed, "reported_evaluations_after_the_second_run": o.second_run_reported_evaluations, "objective_calls_during_the_second_run": o.second_run_objective_calls}),
+                );
+            }
+        }
+    }
+    // an evaluation step executed directly while its evaluator is missing fails and counts nothing; once the
+    // evaluator is there the same step on the same state counts exactly the population
+    {
+        use mahf::{components::evaluation::PopulationEvaluator, identifier, problems::evaluate::Sequential, state::common::Populations, Component};
+        for n in [0usize, 1, 5] {
+            let problem = Real::new(2, -1.0, 1.0, RealFn::Sphere);
+            let mut st = mahf::State::<Real>::new();
+            let mut pops = Populations::<Real>::new();
+            pops.push((0..n).map(|i| mahf::Individual::new_unevaluated(vec![i as f64 * 0.1, 0.0])).collect());
+            st.insert(pops);
+            st.insert_evaluator_as::<identifier::B>(Sequential::<Real>::new());
+            let step = PopulationEvaluator::<identifier::A>::new_with::<Real>();
+            let _ = step.init(&problem, &mut st);
+            problem.instr().reset();
+            let r1 = mv::catch(|| step.execute(&problem, &mut st).map_err(|e| e.to_string()));
+            rep.case();
+            rep.nontrivial(hash_of(&("missing-evaluator-at-execute", n)));
+            // (what happens to the population of a step that fails for lack of its evaluator is not judged: the statement
+            // has such runs fail before anything executes; only the counter and the objective calls are)
+            let after_failure = (st.evaluations(), problem.instr().calls());
+            if !matches!(r1, Ok(Err(_))) || after_failure != (0, 0) {
+                rep.violation("missing-evaluator-at-execute:something-was-counted-or-evaluated", json!({"population": n, "result": format!("{r1:?}"), "(evaluations, objective calls) after the failed step": format!("{after_failure:?}")}));
+                continue;
+            }
+            if st.populations().len() == 0 {
+                st.populations_mut().push((0..n).map(|i| mahf::Individual::new_unevaluated(vec![i as f64 * 0.1, 0.0])).collect());
+            }
+            st.insert_evaluator_as::<identifier::A>(Sequential::<Real>::new());
+            let r2 = mv::catch(|| step.execute(&problem, &mut st).map_err(|e| e.to_string()));
+            let after = (st.evaluations() as usize, problem.instr().calls() as usize);
+            if !matches!(r2, Ok(Ok(()))) || after != (n, n) {
+                rep.violation("missing-evaluator-at-execute:count-wrong-after-the-evaluator-was-registered", json!({"population": n, "result": format!("{r2:?}"), "(evaluations, objective calls)": format!("{after:?}"), "expected": n}));
+            }
+        }
+    }
     if rep.counter("evaluation_steps_observed") == 0 {
         rep.inconclusive("hook never reached: no evaluation step observed");
     }
